@@ -129,18 +129,31 @@ func newRecorder(property string) *Recorder {
 	}
 }
 
+var atExit []func()
+
+// AtExit - run f before the test process exits (Main leaves through os.Exit, which skips the
+// deferred calls of TestMain: scratch directories are removed this way)
+func AtExit(f func()) { atExit = append(atExit, f) }
+
+func exit(code int) {
+	for _, f := range atExit {
+		f()
+	}
+	os.Exit(code)
+}
+
 // Main - TestMain body shared by all check packages
 func Main(m *testing.M, property string, replay ReplayFunc) {
 	flag.Parse()
 	R = newRecorder(property)
 	// replay mode: run one file through the oracle, bypassing the generators
 	if path := os.Getenv("VERIF_REPLAY"); path != "" {
-		os.Exit(R.replayFile(path, replay))
+		exit(R.replayFile(path, replay))
 	}
 	R.loadKnown(replay)
 	code := m.Run()
 	R.Flush()
-	os.Exit(code)
+	exit(code)
 }
 
 func (r *Recorder) replayFile(path string, replay ReplayFunc) int {
